@@ -30,6 +30,28 @@ def handle (line : String) : String :=
   | "enc" :: rest => match parseFileID rest with
     | some f => toHex (encodeRaw f) ++ " " ++ (if decide f.canon then "canon" else "noncanon")
     | none => "bad-op"
+  | ["fromdoc", attrs, dc, id, ah, ref] =>
+    let parseA : Char → Option DocAttr := fun c =>
+      if c = 'a' then some .animated else if c = 's' then some .sticker else if c = 'v' then some (.video false)
+      else if c = 'r' then some (.video true) else if c = 'u' then some (.audio false) else if c = 'o' then some (.audio true)
+      else if c = 'f' then some .other else none
+    match (if attrs == "-" then some [] else attrs.toList.mapM parseA), dc.toNat?, id.toNat?, ah.toNat?, ofHex ref with
+    | some as, some dc, some id, some ah, some ref =>
+      let f := fromDocument as dc id ah ref
+      (if decide f.canon then "canon " else "noncanon ") ++ showFileID f
+    | _, _, _, _, _ => "bad-op"
+  | ["fromphoto", th, dc, id, ah, ref] =>
+    match th.toNat?, dc.toNat?, id.toNat?, ah.toNat?, ofHex ref with
+    | some th, some dc, some id, some ah, some ref =>
+      let f := fromPhoto th dc id ah ref
+      (if decide f.canon then "canon " else "noncanon ") ++ showFileID f
+    | _, _, _, _, _ => "bad-op"
+  | ["fromchat", big, peer, ah, dc, pid] =>
+    match big.toNat?, peer.toNat?, ah.toNat?, dc.toNat?, pid.toNat? with
+    | some big, some peer, some ah, some dc, some pid =>
+      let f := fromChatPhoto (big = 1) peer ah dc pid
+      (if decide f.canon then "canon " else "noncanon ") ++ showFileID f
+    | _, _, _, _, _ => "bad-op"
   | ["dec", h] => match ofHex h with
     | some b => match decodeRaw b with
       | .ok f => "ok " ++ showFileID f
